@@ -23,6 +23,37 @@ claim('C04', 'proof',
       'Lean 4 proof (structural induction on the stage tree) + model/implementation correspondence',
       'DESIGN.md section 5 C04')
 
+claim('C01', 'proof',
+      'Lean 4 theorems C01_* : the suffix-stable round trip inverse(lastN k (transform X)) = lastN (k+gain) X proved by '
+      'mutual structural induction for every tree of the ten lifting-function kinds (nested SplitPipeline / '
+      'KoopmanPipeline, unequal delays), every width and every episode; whole episode when delays agree. '
+      'Correspondence: inverse_transform(transform(X)) and the leading state columns on tagged integers (exact) or '
+      'symbolic terms evaluated with the fitted parameters.',
+      'Lean kernel + propext/Classical.choice/Quot.sound; opaque cell functions (scalers, RBF, kernel features, '
+      'cos/sin/atan2) enter through the laws Ops.Lawful (skInv(sk v) = v; atan2(sin v, cos v) = v on the angle '
+      'domain); AnglePreprocessor(unwrap_inverse=True) is outside the proved model (DESIGN 6, F-unwrap).',
+      'Lean 4 proof (mutual induction with a suffix invariant) + model/implementation correspondence',
+      'DESIGN.md section 5 C01')
+claim('C02', 'proof',
+      'Lean 4 theorems C02_* : the x component of the lifted row is a function of the x component of the input '
+      '(rowFn_xloc per kind, Stage.x_local through the tree, lifted to any episode layout through C03); the '
+      'partition is exactly the widths fit declares. Correspondence: full transform values, declared partition and '
+      'the column dependency map (model: dependency-set instance; code: column perturbation).',
+      'Lean kernel + standard axioms; wrapped scikit-learn transformers are assumed column-wise (the law the model '
+      'gives `sk`); RBF / kernel feature values are opaque functions of the whole row.',
+      'Lean 4 proof (structural induction) + correspondence incl. dependency-set abstract interpretation',
+      'DESIGN.md section 5 C02')
+claim('C03', 'proof',
+      'Lean 4 theorems C03_* : the matrix-level flow (rows routed as the code routes them, incl. the positional zip of '
+      'two independently re-split branches in SplitPipeline) refines the per-episode meaning for every label and '
+      'layout; slice equivariance gives the min_samples_ window locality; the episode utilities act per episode. '
+      'Correspondence: row provenance of transform and inverse_transform (dependency instance vs single-row '
+      'perturbation), exact values, utilities verbatim.',
+      'Lean kernel + standard axioms; guard: no episode shorter than min_samples_ (outside it the code raises or '
+      'drops the episode; excluded by the property).',
+      'Lean 4 proof (refinement between two semantic levels) + correspondence on row provenance',
+      'DESIGN.md section 5 C03')
+
 ALL = [f'C{i:02d}' for i in range(1, 21)]
 
 
